@@ -16,6 +16,7 @@ import (
 	"time"
 
 	"google.golang.org/genproto/googleapis/api/annotations"
+	"google.golang.org/genproto/googleapis/api/httpbody"
 	"google.golang.org/grpc"
 	"google.golang.org/grpc/codes"
 	"google.golang.org/grpc/metadata"
@@ -43,17 +44,18 @@ func TestMain(m *testing.M) {
 }
 
 type Case struct {
-	Shape     string `json:"shape"`     // unary | client | server | bidi
-	Transport string `json:"transport"` // http | httpget | grpc | grpcweb
-	Sizes     []int  `json:"sizes"`     // encoded (protobuf) length of each request message
-	Replies   int    `json:"replies"`   // replies the handler sends (streaming server side)
+	Shape     string `json:"shape"`      // unary | client | server | bidi
+	Transport string `json:"transport"`  // http | httpget | grpc | grpcweb
+	Sizes     []int  `json:"sizes"`      // encoded (protobuf) length of each request message
+	Replies   int    `json:"replies"`    // replies the handler sends (streaming server side)
 	FailAfter int    `json:"fail_after"` // -1 = OK; k = error after k replies
 	UnaryInt  bool   `json:"unary_int"`
 	StreamInt bool   `json:"stream_int"`
 	Stats     bool   `json:"stats"`
-	Behaviour string `json:"behaviour"` // pass | replace-reply | replace-error | context
-	Proxied   bool   `json:"proxied"`   // the service is a backend registered with RegisterConn
-	Meta      bool   `json:"meta"`      // the handler sets header and trailer metadata
+	Behaviour string `json:"behaviour"`  // pass | replace-reply | replace-error | context
+	Proxied   bool   `json:"proxied"`    // the service is a backend registered with RegisterConn
+	Meta      bool   `json:"meta"`       // the handler sets header and trailer metadata
+	RawReply  bool   `json:"raw_reply"`  // unary/server shapes: the method replies with google.api.HttpBody (raw bytes on HTTP)
 	StrayBody string `json:"stray_body"` // httpget: body sent although the binding maps none ("" = none; a leading "~" = unknown length)
 }
 
@@ -96,11 +98,15 @@ func theWorld() *dyn.World {
 		}
 		un := post("/c18/unary")
 		un.AdditionalBindings = []*annotations.HttpRule{{Pattern: &annotations.HttpRule_Get{Get: "/c18/unary/{f_string}"}}}
+		rawu := post("/c18/rawu")
+		rawu.AdditionalBindings = []*annotations.HttpRule{{Pattern: &annotations.HttpRule_Get{Get: "/c18/rawu/{f_string}"}}}
 		world = uni.WorldWith(dyn.Svc("C18",
 			dyn.MethodSpec{Name: "Unary", In: ".un.All", Out: ".un.All", Rule: un},
 			dyn.MethodSpec{Name: "ClientS", In: ".un.All", Out: ".un.All", ClientStream: true, Rule: post("/c18/client")},
 			dyn.MethodSpec{Name: "ServerS", In: ".un.All", Out: ".un.All", ServerStream: true, Rule: post("/c18/server")},
 			dyn.MethodSpec{Name: "Bidi", In: ".un.All", Out: ".un.All", ClientStream: true, ServerStream: true, Rule: post("/c18/bidi")},
+			dyn.MethodSpec{Name: "RawU", In: ".un.All", Out: ".google.api.HttpBody", Rule: rawu},
+			dyn.MethodSpec{Name: "RawS", In: ".un.All", Out: ".google.api.HttpBody", ServerStream: true, Rule: post("/c18/raws")},
 		))
 	})
 	return world
@@ -108,6 +114,37 @@ func theWorld() *dyn.World {
 
 var methodOf = map[string]string{"unary": "/un.C18/Unary", "client": "/un.C18/ClientS", "server": "/un.C18/ServerS", "bidi": "/un.C18/Bidi"}
 var pathOf = map[string]string{"unary": "/c18/unary", "client": "/c18/client", "server": "/c18/server", "bidi": "/c18/bidi"}
+
+func mOf(c Case) string {
+	if c.RawReply && c.Shape == "unary" {
+		return "/un.C18/RawU"
+	}
+	if c.RawReply && c.Shape == "server" {
+		return "/un.C18/RawS"
+	}
+	return methodOf[c.Shape]
+}
+
+func pOf(c Case) string {
+	if c.RawReply && c.Shape == "unary" {
+		return "/c18/rawu"
+	}
+	if c.RawReply && c.Shape == "server" {
+		return "/c18/raws"
+	}
+	return pathOf[c.Shape]
+}
+
+// rawReply has a single populated field when the call is proxied: the proxy
+// re-encodes a dynamicpb message, whose field order on the wire is
+// deliberately unstable, and outcomes are compared byte for byte.
+func rawReply(i int, proxied bool) proto.Message {
+	m := &httpbody.HttpBody{ContentType: "application/x-c18", Data: []byte(fmt.Sprintf("raw-reply-%d;", i))}
+	if proxied {
+		m.ContentType = ""
+	}
+	return m
+}
 
 // msgOfSize returns un.All whose protobuf encoding has exactly n bytes.
 func msgOfSize(w *dyn.World, n int) *dynamicpb.Message {
@@ -189,10 +226,10 @@ var errScripted = status.Error(codes.FailedPrecondition, "scripted")
 var errReplaced = status.Error(codes.PermissionDenied, "replaced by interceptor")
 
 type run struct {
-	status  int
-	header  string
-	body    string
-	trailer string
+	status   int
+	header   string
+	body     string
+	trailer  string
 	panicked string
 }
 
@@ -281,6 +318,9 @@ func execute(c Case, unaryInt, streamInt, withStats bool, behaviour string) (run
 			return nil, errScripted
 		}
 		hl.sent++
+		if strings.HasSuffix(fm, "/RawU") {
+			return rawReply(0, c.Proxied), nil
+		}
 		return reply(0), nil
 	}
 	stream := func(full string, in, out protoreflect.MessageDescriptor, ss grpc.ServerStream) error {
@@ -290,7 +330,8 @@ func execute(c Case, unaryInt, streamInt, withStats bool, behaviour string) (run
 			ss.SetTrailer(metadata.Pairs("x-t", "2"))
 		}
 		hl.sawCtx = ss.Context().Value(ctxKey{}) == full
-		single := strings.HasSuffix(full, "/ServerS")
+		single := strings.HasSuffix(full, "/ServerS") || strings.HasSuffix(full, "/RawS")
+		raw := strings.HasSuffix(full, "/RawS")
 		for {
 			m := dynamicpb.NewMessage(in)
 			if err := ss.RecvMsg(m); err != nil {
@@ -314,7 +355,11 @@ func execute(c Case, unaryInt, streamInt, withStats bool, behaviour string) (run
 				hl.err = errScripted
 				return errScripted
 			}
-			if err := ss.SendMsg(reply(i)); err != nil {
+			var out proto.Message = reply(i)
+			if raw {
+				out = rawReply(i, c.Proxied)
+			}
+			if err := ss.SendMsg(out); err != nil {
 				hl.err = err
 				return err
 			}
@@ -353,10 +398,10 @@ func execute(c Case, unaryInt, streamInt, withStats bool, behaviour string) (run
 		if streamingClient {
 			cl = -1
 		}
-		req = drive.Request("POST", pathOf[c.Shape], "", hdr, bytes.NewReader(body.Bytes()), cl)
+		req = drive.Request("POST", pOf(c), "", hdr, bytes.NewReader(body.Bytes()), cl)
 	case "httpget":
 		if c.StrayBody == "" {
-			req = drive.Request("GET", "/c18/unary/abc", "", hdr, nil, 0)
+			req = drive.Request("GET", strings.TrimSuffix(pOf(c), "/")+"/abc", "", hdr, nil, 0)
 		} else {
 			// the binding maps no body: the message is still built from the URL alone
 			hdr.Set("Content-Type", "application/json")
@@ -365,7 +410,7 @@ func execute(c Case, unaryInt, streamInt, withStats bool, behaviour string) (run
 			if b != c.StrayBody {
 				cl = -1
 			}
-			req = drive.Request("GET", "/c18/unary/abc", "", hdr, strings.NewReader(b), cl)
+			req = drive.Request("GET", strings.TrimSuffix(pOf(c), "/")+"/abc", "", hdr, strings.NewReader(b), cl)
 		}
 	case "grpc", "grpcweb":
 		for _, n := range c.Sizes {
@@ -373,10 +418,10 @@ func execute(c Case, unaryInt, streamInt, withStats bool, behaviour string) (run
 			body.Write(drive.GRPCFrame(b, false))
 		}
 		if c.Transport == "grpc" {
-			req = drive.GRPCRequest(methodOf[c.Shape], hdr, bytes.NewReader(body.Bytes()), "application/grpc")
+			req = drive.GRPCRequest(mOf(c), hdr, bytes.NewReader(body.Bytes()), "application/grpc")
 		} else {
 			hdr.Set("Content-Type", "application/grpc-web+proto")
-			req = drive.Request("POST", methodOf[c.Shape], "", hdr, bytes.NewReader(body.Bytes()), -1)
+			req = drive.Request("POST", mOf(c), "", hdr, bytes.NewReader(body.Bytes()), -1)
 		}
 	}
 	res := drive.Serve(mux, req)
@@ -435,8 +480,8 @@ func Check(c Case) []evid.Violation {
 		}
 	}
 	active := (unaryMethod && c.UnaryInt) || (!unaryMethod && c.StreamInt)
-	if active && il.fullMethod != methodOf[c.Shape] {
-		return fail("interceptor", "interceptor-fullmethod", "FullMethod %q want %q", il.fullMethod, methodOf[c.Shape])
+	if active && il.fullMethod != mOf(c) {
+		return fail("interceptor", "interceptor-fullmethod", "FullMethod %q want %q", il.fullMethod, mOf(c))
 	}
 	if active && c.Behaviour == "context" && !hl.sawCtx && !c.Proxied {
 		return fail("interceptor", "context-not-propagated", "context decorated by the interceptor did not reach the handler")
@@ -529,8 +574,8 @@ func Check(c Case) []evid.Violation {
 		if ev[2].cs != (c.Shape == "client" || c.Shape == "bidi") || ev[2].ss != (c.Shape == "server" || c.Shape == "bidi") {
 			return fail("stats", "begin-flags", "Begin flags client=%v server=%v for shape %s", ev[2].cs, ev[2].ss, c.Shape)
 		}
-		if sr.names[1] != methodOf[c.Shape] {
-			return fail("stats", "tag-method", "TagRPC FullMethodName %q want %q", sr.names[1], methodOf[c.Shape])
+		if sr.names[1] != mOf(c) {
+			return fail("stats", "tag-method", "TagRPC FullMethodName %q want %q", sr.names[1], mOf(c))
 		}
 	}
 	return nil
@@ -569,6 +614,9 @@ func genCase(t *rapid.T) Case {
 	c.Stats = rapid.Bool().Draw(t, "stats")
 	c.Behaviour = rapid.SampledFrom([]string{"pass", "pass", "replace-reply", "replace-error", "context"}).Draw(t, "behaviour")
 	c.Meta = rapid.Bool().Draw(t, "meta")
+	if (c.Shape == "unary" || c.Shape == "server") && c.Behaviour != "replace-reply" {
+		c.RawReply = rapid.IntRange(0, 3).Draw(t, "rawReply") == 0
+	}
 	return c
 }
 
@@ -587,6 +635,9 @@ func TestProp(t *testing.T) {
 		}
 		if small {
 			cl = append(cl, "message<5B")
+		}
+		if c.RawReply {
+			cl = append(cl, "httpbody-reply")
 		}
 		key := ""
 		if anyOpt && (c.Shape != "unary" || c.FailAfter >= 0 || small) {
